@@ -24,7 +24,7 @@ static Plan gen_corrupt(const std::string &prop, const std::string &tier, uint64
 	if (prop == "C12") {
 		p.set("producer", "real");
 		bool sweep = thorough && r.chance(1, 40);
-		gen_sorted_adds(p, r, sweep ? 3 + r.below(20) : 2 + r.below(r.chance(1, 3) ? 150 : 40), r.chance(1, 2) ? 100 : 300);
+		gen_sorted_adds(p, r, sweep ? 3 + r.below(20) : r.chance(1, 25) ? r.below(2) : 2 + r.below(r.chance(1, 3) ? 150 : 40), r.chance(1, 2) ? 100 : 300);
 		if (sweep) { p.op("sweepbits"); return p; }
 		p.op("intact");
 		int nf = 4 + (int)r.below(10);
@@ -50,7 +50,8 @@ static Plan gen_corrupt(const std::string &prop, const std::string &tier, uint64
 			else if (k < 36) p.op("trunc", { "99", std::to_string(r.below(1u << 20)), v });
 			else if (k < 52) p.op("idxoff", { std::to_string(r.below(16)), std::to_string(r.below(1u << 30)), v });
 			else if (k < 60) p.op("magic", { std::to_string(r.below(4)), std::to_string(r.below(1u << 30)), v });
-			else if (k < 82) p.op("idxlen", { std::to_string(r.below(14)), std::to_string(r.below(1u << 30)), v });
+			else if (k < 78) p.op("idxlen", { std::to_string(r.below(16)), std::to_string(r.below(1u << 30)), v });
+			else if (k < 82) p.op("idxtail", { std::to_string(r.below(12)), std::to_string(r.below(1u << 30)), v });
 			else if (k < 88) p.op("random", { std::to_string(r.below(2049)), std::to_string(r.below(1u << 30)), std::to_string(r.below(3)), v });
 			else if (k < 91) p.op("tiny", { std::to_string(512 + r.below(40)), std::to_string(r.below(1u << 30)), std::to_string(r.below(12)), v });
 			else if (k < 95) p.op("trailerflip", { std::to_string(r.below(1u << 30)), std::to_string(1 + r.below(4)), v });
@@ -343,6 +344,8 @@ static RunResult exec_corrupt(const Plan &p)
 			case 7: v = 1ull << 31; break; case 8: v = 0xFFFFFFFFull; break; case 9: v = ~0ull; break; case 10: v = 1ull << 62; break;
 			case 11: v = remaining - 5 + rel[o.argi(1) % 3]; break;
 			case 12: v = size + (uint64_t)o.argi(1) % 4096; break;
+			case 14: v = 2 + (uint64_t)o.argi(1) % 6; break;	// 2..7: shorter than a restart array with one slot
+			case 15: v = truelen - 4; break;
 			default: v = (uint64_t)o.argi(1) * 11400714819323198485ull >> (o.argi(1) % 60); break;
 			}
 			if (b.df.version == 1) wr32le(dam, ioff, (uint32_t)v);
@@ -352,6 +355,17 @@ static RunResult exec_corrupt(const Plan &p)
 				for (size_t i = 0; i < n && ioff + i < size; i++) dam[ioff + i] = (char)t[i];
 			}
 			res.faults["index-length-prefix"]++;
+			open_damaged(dpath, dam, o.argi(2), opi & 1, res);
+		} else if (o.name == "idxtail") {
+			// the restart count (last 4 bytes of the index block's contents) and the slot before it
+			Bytes dam = b.file;
+			uint64_t truelen = b.df.index.stored_len, end = b.df.index.payload_off + truelen;
+			static const uint32_t cnt[] = { 0, 1, 2, 0x7fffffffu, 0x80000000u, 0xffffffffu, 0x3fffffffu, 0x40000000u };
+			uint64_t sel = (uint64_t)o.argi(0);
+			uint32_t c = sel < 8 ? cnt[sel] : sel == 8 ? (uint32_t)(truelen / 4) : sel == 9 ? (uint32_t)(truelen / 4 - 1) : sel == 10 ? (uint32_t)(truelen / 4 + 1) : (uint32_t)o.argi(1);
+			if (end >= 4 && end <= size) wr32le(dam, end - 4, c);
+			if (sel % 3 == 0 && end >= 8) wr32le(dam, end - 8, (uint32_t)o.argi(1) * 2654435761u);
+			res.faults["index-restart-count"]++;
 			open_damaged(dpath, dam, o.argi(2), opi & 1, res);
 		} else if (o.name == "random") {
 			size_t n = (size_t)o.argi(0);
